@@ -546,6 +546,7 @@ pub fn exec(prop: &str, case: &Case) -> Outcome {
                 ("sink.interrupted", run.intr),
                 (if at.is_none() { "sink.flush_error" } else { "sink.hard_error" }, 1),
                 ("probe.fault_in_multi_MiB_build", (run.bytes > (1 << 20)) as u64),
+                ("probe.c11_ok0_on_a_3_to_7_byte_write_far_into_a_set", (mc.rejects == 1 && run.zero > 0) as u64),
             ];
             Outcome {
                 digest: run.digest,
